@@ -65,9 +65,7 @@ package tdpos
 
 // The validator list in force for a block: a function of the block's height,
 // timestamp and consensus storage and of the (unchanging) ledger.
-//@ func tdposSchedule.CalOldProposers
-//@   noverify
-//@   pure
+// (tdposSchedule.CalOldProposers: pure, under contract at the end of this file.)
 
 // A block is accepted only from the validator entitled at the block's own timestamp.
 // C14: the block's certificate is judged against the proposers of the PARENT block's term
@@ -83,3 +81,15 @@ package tdpos
 //@   requires ts_nonneg: block.GetTimestamp() >= 0
 //@   ensures entitled_producer: result0 ==> (exists t int, p int, b int :: tdposSlot(tp.election, block.GetTimestamp(), t, p, b) && 0 <= b && b < tp.election.blockNum && p < tp.election.proposerNum
 //@       && tp.election.CalOldProposers(block.GetHeight(), block.GetTimestamp(), block.GetConsensusStorage())[p] == str(block.GetProposer()))
+
+// The proposer list a block is checked against: the recorded history answers only for a
+// height strictly BELOW the tip (the block at the tip height may be a competing one, in
+// another term); a block at or above the tip gets the list of its own time's term.
+//@ func tdposSchedule.CalOldProposers
+//@   property C16
+//@   pure
+//@   trustcallees
+//@   local tipHeight int64
+//@   at tdposSchedule.calHisValidators#1 assert recorded_history_only_below_the_tip: $0 == height && tipHeight > height
+//@   at tdposSchedule.calHisValidators#2 assert same_term_as_the_tip_uses_the_tips_list: $0 == tipHeight && tipHeight <= height
+//@   at tdposSchedule.minerScheduling assert term_of_the_blocks_own_time: $0 == timestamp
